@@ -134,7 +134,7 @@ Definition drop_ep (o : Z) (want : list Z) (e : epo) : epo :=
 
 (* addOrUpdateEndpoint on a known endpoint: SetDisabled, then EnsureGatewayHealthCheck(info, _, info.ctx) *)
 Definition update_ep (o : Z) (sv : list (Z * bool)) (e : epo) : epo :=
-  if (ecl e =? o) && elive e
+  if (ecl e =? o) && elive e && zmem (ename e) (map fst sv)
   then ensure update_path_parent
          (mkEp (eobj e) (ecl e) (ename e) (elive e) (ecancel e) (ehealthy e) (dis_in sv (ename e)) (eprobing e) (pparent e))
   else e.
@@ -148,6 +148,18 @@ Definition unbind_all (o : Z) (ns : list Z) (l : list (Z * Z)) : list (Z * Z) :=
 Definition conflict (s : st) (o : Z) (ns : list Z) : bool :=
   existsb (fun n => match resolve s n with Some o' => negb (o' =? o) | None => false end) ns.
 
+(* a server whose URL cannot be turned into a client (url.Parse fails inside ResetTransport; there is no
+   admission validation of endpoint URLs) is written as a negative endpoint name.  addOrUpdateEndpoint
+   fails on it, the add/update loop of syncEndpoints stops there and Sync returns the error: of the
+   other servers only a part has been added / updated (here: those listed before it), the controller
+   does not update the server names — but the endpoints that are not in the list any more were dropped
+   BEFORE the loop, unconditionally. *)
+Definition usable (n : Z) : bool := 0 <=? n.
+Fixpoint usable_prefix (sv : list (Z * bool)) : list (Z * bool) :=
+  match sv with [] => [] | p :: r => if usable (fst p) then p :: usable_prefix r else [] end.
+Definition all_usable (sv : list (Z * bool)) : bool := forallb (fun p => usable (fst p)) sv.
+Definition pick {A} (b : bool) (x y : A) : A := if b then x else y.
+
 Definition upsert (s : st) (name : Z) (aliases : list Z) (sv : list (Z * bool)) : st :=
   let want := map fst sv in
   let ns := name :: aliases in
@@ -155,7 +167,7 @@ Definition upsert (s : st) (name : Z) (aliases : list Z) (sv : list (Z * bool)) 
   | None =>
       (* CreateClusterInfo + AddOrUpdateForServerNames(nil, info); refused on a server-name conflict *)
       let o := next s in
-      if conflict s o ns then s else
+      if conflict s o ns || negb (all_usable sv) then s else      (* CreateClusterInfo fails: nothing is created *)
       let new := fresh_eps (o + 1) o sv (dedup want) in
       mkSt (bind_all o ns (names s)) (clos s ++ [mkCl o ns false]) (eps s ++ new) (reqs s)
            (o + 1 + Z.of_nat (List.length new))
@@ -165,11 +177,12 @@ Definition upsert (s : st) (name : Z) (aliases : list Z) (sv : list (Z * bool)) 
       | Some c =>
           if negb (primary c =? name) || conflict s o ns then s else
           (* info.Sync (syncEndpoints) + AddOrUpdateForServerNames(old, new) *)
-          let added := filter (fun n => negb (zmem n (live_names s o))) (dedup want) in
+          let svp := usable_prefix sv in
+          let added := filter (fun n => negb (zmem n (live_names s o))) (dedup (map fst svp)) in
           let dropped := filter (fun n => negb (zmem n ns)) (cnames c) in
-          mkSt (bind_all o ns (unbind_all o dropped (names s)))
-               (map (fun x => if cobj x =? o then mkCl (cobj x) ns (ccancel x) else x) (clos s))
-               (map (update_ep o sv) (map (drop_ep o want) (eps s)) ++ fresh_eps (next s) o sv added) (reqs s)
+          mkSt (pick (all_usable sv) (bind_all o ns (unbind_all o dropped (names s))) (names s))
+               (map (fun x => if cobj x =? o then mkCl (cobj x) (pick (all_usable sv) ns (cnames x)) (ccancel x) else x) (clos s))
+               (map (update_ep o svp) (map (drop_ep o want) (eps s)) ++ fresh_eps (next s) o svp added) (reqs s)
                (next s + Z.of_nat (List.length added))
       end
   end.
